@@ -272,6 +272,58 @@ theorem announce_enabled (cfg : S3V.Xfer.Cfg) (x : S3V.Xfer.X) (j : Nat)
   simp [S3V.Xfer.step, h1, h2, h3, h4, h7]
   exact ⟨h5, h6⟩
 
+/-! ### the hand-off of the final IO task of a ranged download (`CountCallbackInvoker`)
+
+`increment`, `decrement` and `finalize` each run under the invoker's lock, so an execution is a
+sequence of them.  Whatever the order in which the submission thread's `finalize` and the
+GetObjectTasks' `decrement`s take the lock: once finalized, the callback (which submits the final
+task) has run exactly once if the count is zero and not at all otherwise — the hand-off is never
+lost and never doubled. -/
+inductive CciOp | inc | dec
+  deriving Repr, DecidableEq
+
+def cciApply (c : S3V.Sema.Cci) : CciOp → S3V.Sema.Cci
+  | .inc => c.increment.1
+  | .dec => c.decrement.1
+
+theorem cci_pre (ops : List CciOp) (c : S3V.Sema.Cci) (h : c.finalized = false ∧ c.fired = 0) :
+    (ops.foldl cciApply c).finalized = false ∧ (ops.foldl cciApply c).fired = 0 := by
+  induction ops generalizing c with
+  | nil => exact h
+  | cons o os ih =>
+    apply ih
+    cases o <;> simp only [cciApply, S3V.Sema.Cci.increment, S3V.Sema.Cci.decrement] <;>
+      (repeat' split) <;> simp_all
+
+theorem cci_post (ops : List CciOp) (c : S3V.Sema.Cci)
+    (h : c.finalized = true ∧ c.fired = if c.count = 0 then 1 else 0) :
+    (ops.foldl cciApply c).finalized = true ∧
+      (ops.foldl cciApply c).fired = if (ops.foldl cciApply c).count = 0 then 1 else 0 := by
+  induction ops generalizing c with
+  | nil => exact h
+  | cons o os ih =>
+    apply ih
+    obtain ⟨h1, h2⟩ := h
+    cases o <;> simp only [cciApply, S3V.Sema.Cci.increment, S3V.Sema.Cci.decrement]
+    · simp [h1, h2]
+    · by_cases hc : c.count = 0
+      · simp [hc, h1, h2]
+      · by_cases hc1 : c.count = 1
+        · simp [hc1, h1, h2]
+        · have : c.count - 1 ≠ 0 := by omega
+          simp [hc, hc1, h1, h2, this]
+
+theorem cci_handoff (pre post : List CciOp) :
+    (post.foldl cciApply ((pre.foldl cciApply S3V.Sema.Cci.init).finalize.1)).finalized = true ∧
+    (post.foldl cciApply ((pre.foldl cciApply S3V.Sema.Cci.init).finalize.1)).fired =
+      if (post.foldl cciApply ((pre.foldl cciApply S3V.Sema.Cci.init).finalize.1)).count = 0 then 1 else 0 := by
+  apply cci_post
+  have hp := cci_pre pre S3V.Sema.Cci.init ⟨rfl, rfl⟩
+  simp only [S3V.Sema.Cci.finalize]
+  split <;> simp_all
+
+example : (([CciOp.dec, .dec].foldl cciApply (([CciOp.inc, .inc].foldl cciApply S3V.Sema.Cci.init).finalize.1)).fired) = 1 := by decide
+
 /-! ### non-vacuity -/
 example : Ord (Exec.init 2 1) 0 ∧ 0 < (Exec.init 2 1).workers := ⟨ord_init 2 1, by decide⟩
 
